@@ -192,21 +192,23 @@ def fam_plain_aux(quick=True):
                        3: [("go", "f0", [E0])]},
     }
     kinds = ("repeat1", "never", "now")
-    slots_all = list(itertools.product((None, "x", "y"), repeat=4))
+    slots_all = list(itertools.product((None, "x", "y", "xy", "yx"), repeat=4))
     for xkind in kinds:
         for vname, var in variants.items():
             for slots in slots_all:
                 if not any(slots):
                     continue
-                if quick and sum(1 for s in slots if s) > 2:
+                if quick and sum(len(s) for s in slots if s) > 2:
                     continue
-                if vname in ("auxdone", "allin") and "x" not in slots:
+                if not quick and sum(len(s) for s in slots if s) > 4:
+                    continue
+                if vname in ("auxdone", "allin") and not any(s and "x" in s for s in slots):
                     continue          # `aux x is done` needs x to be an auxiliary of this framer
                 frames = []
                 for i, nm in enumerate(names):
                     items = recs(nm, ctxs)
-                    if slots[i]:
-                        items.append(("aux", slots[i]))
+                    for ch in (slots[i] or ""):
+                        items.append(("aux", ch))
                     items += var.get(i, [])
                     frames.append(dict(name=nm, over=names[parents[i]] if parents[i] is not None else None, items=items))
                 framers = [dict(name="m", schedule="active", frames=frames), aux_framer("x", xkind), aux_framer("y", "repeat1")]
